@@ -44,7 +44,7 @@ type Work struct {
 	CtxMode int    `json:"ctx_mode,omitempty"` // 0 simulated cancellable context, 1 context.Background(), 2 vm.Execute (no context argument)
 }
 
-const nSites = 48
+const nSites = 60
 const nWraps = 7
 
 func siteSrc(k int, id string) string {
@@ -143,8 +143,32 @@ func siteSrc(k int, id string) string {
 		return "hp(hE(" + id + ")...)"
 	case 46:
 		return "go hpf(\"x\", [" + id + "]...)"
-	default:
+	case 47:
 		return "func g" + id + "(a, b) { return a }\ng" + id + "(nil...)"
+	case 48:
+		return "m" + id + " = {\"f\": h}\nm" + id + ".f(" + id + ")"
+	case 49:
+		return "m" + id + " = {\"f\": h}\ngo m" + id + "[\"f\"](" + id + ")"
+	case 50:
+		return "fs" + id + " = [h, hid]\nfs" + id + "[0](" + id + ")"
+	case 51:
+		return "fs" + id + " = [h, hid]\ndefer fs" + id + "[0](" + id + ")"
+	case 52:
+		return "st.F(" + id + ")"
+	case 53:
+		return "go st.F(" + id + ")"
+	case 54:
+		return "x" + id + " = st.N\nx" + id + "()"
+	case 55:
+		return "for q" + id + " in [1, 2] { go func(k) { h(" + id + " + k) }(q" + id + ") }"
+	case 56:
+		return "switch h(" + id + ") {\ncase h(1" + id + "):\nh(2" + id + ")\n}"
+	case 57:
+		return "x" + id + " = h(" + id + ") > 0 ? h(1" + id + ") : h(2" + id + ")"
+	case 58:
+		return "x" + id + " = [h(" + id + "), h(1" + id + ")]\ny" + id + " = {\"k\": h(2" + id + ")}"
+	default:
+		return "c" + id + " = make(chan int64, 2)\nc" + id + " <- h(" + id + ")\nx" + id + " = <-c" + id + "\nhch(c" + id + ")\nx" + id + ", ok" + id + " = <-c" + id
 	}
 }
 
@@ -211,6 +235,8 @@ func (Prop) Gen(seed int64, tier string) *harness.Case {
 // T is the Go struct bound into the environment.
 type T struct {
 	hook func(string) interface{}
+	F    func(int64) int64 // a func-typed field
+	N    func()            // a nil func-typed field
 }
 
 func (t *T) M(id int64) int64 { t.hook("M"); return id }
@@ -297,6 +323,7 @@ func (Prop) Run(t *testing.T, c *harness.Case, verbose bool) *harness.Result {
 		obj := &T{}
 		obj.hook = func(n string) interface{} { return fault(n) }
 		e.Define("obj", obj)
+		e.Define("st", &T{F: func(id int64) int64 { fault("st.F"); return id }})
 		sim.Events = append(sim.Events, &simrt.Event{AtQuiescence: true, Name: "cleanup-cancel", Do: func(s *simrt.Sim) { ctx.Cancel() }})
 		sim.Spawn("main", func() {
 			defer func() {
